@@ -114,6 +114,12 @@ class FSA:
         else:
             self._out_dict = FSA._defaultify_out_dict(vert_dict)
 
+            # vertices which only appear as targets are still vertices
+            for neighbors in vert_dict.values():
+                for w in neighbors:
+                    if w not in self._out_dict:
+                        self._out_dict[w] = defaultdict(list)
+
             self._build_in_dict()
             self._build_graph_dict()
 
